@@ -32,6 +32,8 @@
 (*                              a run-time if that does not touch it, a read  *)
 (*   arr    x y z / idx A i / aset A i x      arrays of three elements     *)
 (*   idxv   A u                 v := A[u % 3]   a run-time index (u unsigned)*)
+(*   arrl   c1 x c2             var v [3]T; v[0] = c1; v[1] = x; v[2] = c2    *)
+(*                              (literals stored into a fresh, zero array)    *)
 (*   mat x y z w / midx M i j / mset M i j x   a 2 x 2 array of arrays      *)
 (*   asetl A i c / fsetl S k c                 a literal stored into an     *)
 (*                                             element / a field            *)
@@ -151,7 +153,7 @@ TypesOf(p, n) ==   \* sequence of the types of variables 1..2+n
                     [] s.k = "cast" -> <<s.t>>
                     [] s.k \in {"if", "ifnest", "ifcall"} -> <<ts[s.x]>>
                     [] s.k = "ifret" -> <<BT>>            \* defines a dummy copy of its condition
-                    [] s.k = "arr" -> <<ArrT(ts[s.x])>>
+                    [] s.k \in {"arr", "arrl"} -> <<ArrT(ts[s.x])>>
                     [] s.k \in {"idx", "idxv"} -> <<ts[s.x][2]>>
                     [] s.k \in {"aset", "asetl"} -> <<ts[s.x]>>
                     [] s.k = "mat" -> <<MatT(ts[s.x])>>
@@ -220,6 +222,8 @@ AddStmt ==
           \/ "arr" \in Kinds /\ \E x \in ints : \E y \in {v \in ints : ts[v] = ts[x]} : \E z \in {v \in ints : ts[v] = ts[x]} :
                 add(S("arr", x, y, z, "", <<>>, 0))
           \/ "arr" \in Kinds /\ \E a \in arrs : \E i \in 0..2 : add(S("idx", a, 0, 0, "", <<>>, i))
+          \/ "arr" \in Kinds /\ \E x \in {v \in ints : W(ts[v]) >= 3} : \E c1 \in {0, 1, 3, 5} : \E c2 \in {0, 2, 5} :
+                add(S("arrl", x, 0, c1, "", <<>>, c2))
           \/ "arr" \in Kinds /\ \E a \in arrs : \E u \in {v \in ints : ~IsSigned(ts[v]) /\ W(ts[v]) >= 2} :
                 add(S("idxv", a, u, 0, "", <<>>, 0))
           \/ "arr" \in Kinds /\ \E a \in arrs : \E i \in 0..2 : \E x \in {v \in ints : ts[v] = ts[a][2]} :
@@ -304,6 +308,7 @@ Exec(p, i, env) ==
                                          ELSE Bin(ExprOpList[s.c], Bin(s.op, x, y), env[s.z])>>
                   [] s.k = "shadow" -> <<Bin("+", x, IF env[s.z].v = 1 THEN BinL("+", y, 1) ELSE y)>>
                   [] s.k = "arr" -> <<[t |-> ArrT(x.t), v |-> <<x, y, env[s.z]>>]>>
+                  [] s.k = "arrl" -> <<[t |-> ArrT(x.t), v |-> <<Wrap(x.t, s.z), x, Wrap(x.t, s.c)>>]>>
                   [] s.k = "idx" -> <<x.v[s.c + 1]>>
                   [] s.k = "idxv" -> <<x.v[(y.v % 3) + 1]>>
                   [] s.k = "aset" -> <<[x EXCEPT !.v[s.c + 1] = y]>>
